@@ -96,9 +96,9 @@ def embed(ctx, v, r, path, problems, el=None):
 
     if type(el) is Number and type(v) is int and type(r) is not float:
         try:
-            float(v)
-            problems.append("%s: integer %r accepted by a number schema came back as %r, not the equal float" % (path, v, r))
-            return
+            if float(v) == v:  # an equal float exists (otherwise - beyond 2**53 or the float range - the integer must stay)
+                problems.append("%s: integer %r accepted by a number schema came back as %r, not the equal float" % (path, v, r))
+                return
         except OverflowError:
             pass
     if isinstance(el, ObjectMeta) and isinstance(v, dict) and not isinstance(r, el):
